@@ -37,7 +37,7 @@ def few_slices_of(e, w):
         yield rng(e, None, -1, None)
 
 
-def exprs(depth, final_width=4, inter_width=8, all_spellings=False):
+def exprs(depth, final_width=4, inter_width=8, all_spellings=False, steps=(None,)):
     """All expression trees up to `depth` (2 or 3), as (expr, bit list).  Level 1 uses every index spelling; deeper
     levels operate on one representative per (shape, value) of the previous level."""
     atoms = [sig("x"), sig("y")]
@@ -49,7 +49,7 @@ def exprs(depth, final_width=4, inter_width=8, all_spellings=False):
         older = older if d == 1 else dedupe_by_shape_value(older)
         new = []
         for e, v in prev:
-            gen = slices_of(e, len(v)) if (d == 1 or all_spellings) else few_slices_of(e, len(v))
+            gen = slices_of(e, len(v), steps=(steps if d == 1 else (None,))) if (d == 1 or all_spellings) else few_slices_of(e, len(v))
             for s in gen:
                 new.append((s, list_eval(s, ENV)))
         for a, va in prev:
@@ -112,7 +112,8 @@ def design_for(e, w, style="proc", via_module=False):
 
 def items(tier):
     thorough = tier == "thorough"
-    es = exprs(3, final_width=6) if thorough else exprs(2, final_width=6, all_spellings=True)
+    # strided and reversed ranges (steps -1, 2, -2) at the first level, unit steps above
+    es = exprs(3, final_width=6, steps=(None, -1, 2, -2)) if thorough else exprs(2, final_width=6, all_spellings=True, steps=(None, -1, 2))
     return [(e, len(v), n) for n, (e, v) in enumerate(es)]
 
 
